@@ -124,7 +124,9 @@ def buildCfg (v : Variant) (b : BState) : Cfg :=
     components := b.comps.map (compOut b.defaults),
     aliases := sortBy leKey b.aliases,
     default := b.default,
-    literals := b.literals }
+    literals := match v with
+      | .asIs => b.literals                   -- node creation order, whatever it was
+      | .repaired => sortBy (fun a b => decide (a.1 ≤ b.1)) b.literals }
 
 /-- `from_config` (repaired: restores name and version) followed by nothing else -/
 def fromCfg (v : Variant) (c : Cfg) : BState :=
